@@ -412,10 +412,16 @@ func (s *simscreen) SetSize(w, h int) {
 		}
 	}
 	s.cursorx, s.cursory = -1, -1
+	changed := w != s.physw || h != s.physh
 	s.physw, s.physh = w, h
 	s.front = newc
 	s.back.Resize(w, h)
 	s.Unlock()
+	if changed && s.evch != nil {
+		// the logical buffer was resized right here, so the next Show will
+		// not notice a size change: report it now
+		s.postEvent(NewEventResize(w, h))
+	}
 }
 
 func (s *simscreen) GetContents() ([]SimCell, int, int) {
